@@ -22,6 +22,8 @@ type Env struct {
 	bound  map[string]Val
 	pkg    *types.Package
 	errs   *[]string
+	localsFirst bool // invariants/asserts: a name denotes the current value of the variable
+	inOld  bool
 }
 
 func (e *Env) with(state *State) *Env {
@@ -116,7 +118,9 @@ func (e *Env) tr(x *SExpr) Val {
 		if e.old == nil {
 			return e.errorf("old() not available here")
 		}
-		return e.with(e.old).tr(x.Args[0])
+		ne := e.with(e.old)
+		ne.inOld = true
+		return ne.tr(x.Args[0])
 	case "unary":
 		v := e.tr(x.Args[0])
 		switch x.Name {
@@ -153,6 +157,8 @@ func (e *Env) tr(x *SExpr) Val {
 		case KStr:
 			fc.declareFun("strbyte", "(Str "+m.idxSort()+") "+m.intSort(tByte))
 			return Val{T: tByte, S: sx("strbyte", a.S, e.toIdx(i).S)}
+		case KArray:
+			return Val{T: a.T.Underlying().(*types.Array).Elem(), S: sx("select", a.S, e.toIdx(i).S)}
 		case KRef:
 			if p, ok := a.T.Underlying().(*types.Pointer); ok {
 				if arr, ok := p.Elem().Underlying().(*types.Array); ok {
@@ -185,11 +191,20 @@ func (e *Env) tr(x *SExpr) Val {
 		}
 		var decl, guards []string
 		for _, v := range x.Vars {
+			n := "q!" + v.Name
+			if v.Type == "row8" || v.Type == "row64" {
+				et := types.Type(tByte)
+				if v.Type == "row64" {
+					et = tUint64
+				}
+				ne.bound[v.Name] = Val{T: types.NewArray(et, 0), S: n}
+				decl = append(decl, fmt.Sprintf("(%s %s)", n, fc.sfSort(v.Type)))
+				continue
+			}
 			t := e.typeByName(v.Type)
 			if t == nil {
 				return e.errorf("unknown type %s", v.Type)
 			}
-			n := "q!" + v.Name
 			ne.bound[v.Name] = Val{T: t, S: n}
 			decl = append(decl, fmt.Sprintf("(%s %s)", n, m.scalarSort(t)))
 			if kindOf(t) == KInt {
@@ -246,6 +261,11 @@ func (e *Env) ident(n string) Val {
 	fc := e.fc
 	if v, ok := e.bound[n]; ok {
 		return v
+	}
+	if e.localsFirst && !e.inOld && e.lookup != nil {
+		if v, ok := e.lookup(n); ok {
+			return v
+		}
 	}
 	if v, ok := e.names[n]; ok {
 		return v
@@ -625,6 +645,15 @@ func (e *Env) call(x *SExpr) Val {
 		n := "E!" + typeKey(et)
 		fc.regArr(n, "(Array Int (Array "+m.idxSort()+" "+m.scalarSort(et)+"))")
 		return Val{T: types.NewArray(et, 0), S: sx("select", e.state.get(n), v.Sub[0].S)}
+	case "row8of", "row64of":
+		v := e.tr(x.Args[0])
+		et := types.Type(tByte)
+		if x.Name == "row64of" {
+			et = tUint64
+		}
+		n := "E!" + typeKey(et)
+		fc.regArr(n, "(Array Int (Array "+m.idxSort()+" "+m.scalarSort(et)+"))")
+		return Val{T: types.NewArray(et, 0), S: sx("select", e.state.get(n), v.S)}
 	case "typeis":
 		// typeis(x, T): dynamic type of interface x is *T / T
 		v := e.tr(x.Args[0])
@@ -750,7 +779,7 @@ func (fc *FnCtx) pureApp(fn *ssa.Function, args []string, res int) Val {
 	if kindOf(rt) == KIface {
 		// nil-ness only
 		fc.declareFun(name, "("+strings.Join(ps, " ")+") Int")
-		return Val{T: rt, Sub: []Val{{T: tInt, S: sx(sym(name), args...)}, {T: tInt, S: sx(sym(name), args...)}}}
+		return Val{T: rt, Sub: []Val{{T: tRef, S: sx(sym(name), args...)}, {T: tRef, S: sx(sym(name), args...)}}}
 	}
 	fc.declareFun(name, "("+strings.Join(ps, " ")+") "+fc.m.scalarSort(rt))
 	return Val{T: rt, S: sx(sym(name), args...)}
@@ -802,14 +831,12 @@ func (fc *FnCtx) useSpecFun(sf *SpecFun) {
 			env.bound[p.Name] = Val{T: env.typeByName(p.Type), S: "q!" + p.Name}
 		}
 	}
-	idx := len(fc.decls)
-	fc.decls = append(fc.decls, "") // reserve position before dependants
 	body := env.coerce(env.tr(sf.Body), env.typeByName(sf.Ret))
 	kw := "define-fun"
 	if sf.Rec {
 		kw = "define-fun-rec"
 	}
-	fc.decls[idx] = fmt.Sprintf("(%s %s (%s) %s %s)", kw, sym(name), strings.Join(pds, " "), fc.sfSort(sf.Ret), body.S)
+	fc.funDefs = append(fc.funDefs, fmt.Sprintf("(%s %s (%s) %s %s)", kw, sym(name), strings.Join(pds, " "), fc.sfSort(sf.Ret), body.S))
 }
 
 func (g *Gen) importAlias(n string) string {
